@@ -59,7 +59,7 @@ fn main() {
     let cases = Arc::new(cases);
     let next = Arc::new(AtomicUsize::new(0));
     let results = Arc::new(Mutex::new(Vec::<Value>::new()));
-    let totals = Arc::new(Mutex::new((0u64, 0u64, 0u64, Vec::<Value>::new())));
+    let totals = Arc::new(Mutex::new((0u64, 0u64, 0u64, Vec::<Value>::new(), 0u64)));
     let mut hs = vec![];
     for _ in 0..threads {
         let (cases, next, results, totals) = (cases.clone(), next.clone(), results.clone(), totals.clone());
@@ -94,6 +94,7 @@ fn main() {
             let mut probes: Vec<(usize, String, String, String)> = vec![]; // offset, name, role (binder / spread_binder / fun), expected type
             let mut prev = String::new();
             let mut gtoks: Vec<(usize, String, String)> = vec![];   // generator tokens of the generated part: offset, text, role
+            let mut sigprobes: Vec<(usize, String, usize)> = vec![];
             for &fi in &order {
                 for t in &funs[fi] {
                     let s = t["t"].as_str().unwrap();
@@ -102,6 +103,12 @@ fn main() {
                     if matches!(t["r"].as_str().unwrap(), "binder" | "fun") {
                         let role = if prev == ".." { "spread_binder" } else { t["r"].as_str().unwrap() };
                         probes.push((text.len(), s.to_string(), role.to_string(), t["ty"].as_str().unwrap().to_string()));
+                    }
+                    let role = t["r"].as_str().unwrap();
+                    if role == "callopen" || role.starts_with("argsep") {
+                        // signature help with the cursor right after this token: expected signature text, active parameter
+                        let active = role.strip_prefix("argsep").and_then(|n| n.parse::<usize>().ok()).unwrap_or(0);
+                        sigprobes.push((text.len() + s.len(), t["ty"].as_str().unwrap().to_string(), active));
                     }
                     gtoks.push((text.len(), s.to_string(), t["r"].as_str().unwrap().to_string()));
                     text.push_str(s);
@@ -112,6 +119,8 @@ fn main() {
             if !prelude_first { text.push_str(PRELUDE); }
             let mut local = vec![];
             let mut nprobe = 0u64;
+            let mut nsig = 0u64;
+            let mut sig_bad: Option<Value> = None;
             let r = catch(|| {
                 let ws = workspace::single_package(&[("m1", &text)]);
                 let a = ws.host.snapshot();
@@ -142,6 +151,17 @@ fn main() {
                         }
                     }
                 }
+                // S01 (supplementary): signature help at the call sites the specification tagged
+                for (off, sig, active) in &sigprobes {
+                    nsig += 1;
+                    let got = a.signature_help(FilePos::new(FileId(0), (*off as u32).into())).unwrap();
+                    let ok = match &got { Some(h) => alpha(&h.signature) == alpha(sig) && h.active_parameter == Some(*active), None => false };
+                    if !ok {
+                        sig_bad = Some(json!({"what": "signature help", "expected": sig, "expected_active": active, "offset": off,
+                            "got": got.as_ref().map(|h| h.signature.clone()), "got_active": got.as_ref().and_then(|h| h.active_parameter)}));
+                        break;
+                    }
+                }
                 for (off, name, role, exp) in &probes {
                     nprobe += 1;
                     let h = a.hover(FilePos::new(FileId(0), (*off as u32).into())).unwrap();
@@ -154,6 +174,15 @@ fn main() {
                 None
             });
             let bad = match r { Ok(b) => b, Err(p) => Some(json!({"what": "panic", "panic": p})) };
+            if let Some(b) = sig_bad.take() {
+                let mut c = case.clone();
+                c["order"] = json!(order);
+                c["prelude_first"] = json!(prelude_first);
+                let none = b["got"].is_null();
+                let active_only = !none && b["got"].as_str().map(|g| alpha(g) == alpha(b["expected"].as_str().unwrap())).unwrap_or(false);
+                local.push(json!({"kind": "mismatch", "prop": "S01", "features": {"what": "signature help", "none": none, "active_only": active_only, "expected_active": b["expected_active"]},
+                    "detail": {"case": c, "text": text, "bad": b}}));
+            }
             if let Some(b) = bad {
                 let mut c = case.clone();
                 c["order"] = json!(order);
@@ -170,6 +199,7 @@ fn main() {
             let mut t = totals.lock().unwrap();
             t.0 += 1;
             t.1 += nprobe;
+            t.4 += nsig;
             if funs.len() > 1 { t.2 += 1; }
             if t.3.len() < 2 && probes.len() > 6 {
                 t.3.push(json!({"text": text.replace(PRELUDE, "<prelude>\n"), "expected": probes.iter().map(|p| json!([p.1, p.3])).collect::<Vec<_>>()}));
@@ -194,5 +224,5 @@ fn main() {
     }
     let t = totals.lock().unwrap();
     let counts: Vec<Value> = per.iter().map(|(k, v)| json!([k, v])).collect();
-    writeln!(so, "{}", json!({"kind": "summary", "programs": t.0, "hovers": t.1, "multi_function_programs": t.2, "samples": t.3, "mismatch_classes": counts})).unwrap();
+    writeln!(so, "{}", json!({"kind": "summary", "programs": t.0, "hovers": t.1, "signature_helps": t.4, "multi_function_programs": t.2, "samples": t.3, "mismatch_classes": counts})).unwrap();
 }
